@@ -95,6 +95,7 @@ struct Data {
     yc: Array1<usize>,  // class labels
     yr: Array1<f64>,    // regression targets
     xt: Array2<f64>,    // query rows (training rows + in-between points)
+    w: Option<Array1<f32>>, // sample weights (lattice data with a `w` field): exact f32 bit patterns
 }
 
 struct Lcg(u64);
@@ -170,13 +171,30 @@ fn make_data(d: &Value) -> Data {
             xt[[i, j]] = r[j];
         }
     }
-    Data { x, yc, yr, xt }
+    // sample weights: [base code, ulps] per row -- the f32 `ulps` steps above the base value
+    // (base 1 -> 1.0, 2 -> 0.1f32, 3 -> 0.3f32), built from the bit pattern, no arithmetic
+    let w = d.get("w").and_then(|w| w.as_array()).filter(|a| !a.is_empty()).map(|a| {
+        Array1::from(a.iter().map(|e| {
+            let base: f32 = match e[0].as_i64().unwrap_or(1) {
+                2 => 0.1,
+                3 => 0.3,
+                _ => 1.0,
+            };
+            f32::from_bits(base.to_bits() + e[1].as_i64().unwrap_or(0) as u32)
+        }).collect::<Vec<f32>>())
+    });
+    Data { x, yc, yr, xt, w }
 }
 
 fn data_digest(o: &mut Obs, d: &Data) {
     o.f("data.x", d.x.iter());
     o.u("data.yc", d.yc.iter());
-    o.f("data.yr", d.yr.iter());
+    // (the weights are part of the input: their bit patterns are folded into the third data digest)
+    let mut yr: Vec<f64> = d.yr.iter().cloned().collect();
+    if let Some(w) = &d.w {
+        yr.extend(w.iter().map(|v| f64::from_bits(v.to_bits() as u64)));
+    }
+    o.f("data.yr", yr.iter());
 }
 
 // ---------------------------------------------------------------------------------------------
@@ -424,7 +442,10 @@ mod est_reg {
 
     pub fn isotonic(_inp: &Value, d: &Data, o: &mut Obs) {
         let x1 = d.x.slice(ndarray::s![.., 0..1]).to_owned();
-        let ds = DatasetBase::new(x1, d.yr.clone());
+        let mut ds = DatasetBase::new(x1, d.yr.clone());
+        if let Some(w) = &d.w {
+            ds = ds.with_weights(w.clone());
+        }
         match IsotonicRegression::new().fit(&ds) {
             Ok(m) => {
                 o.model("model", &m);
@@ -626,6 +647,9 @@ mod est_cls {
             let w: Vec<f32> = (0..d.x.nrows()).map(|i| 0.1 * ((i % 7) as f32 + 1.0)).collect();
             ds = ds.with_weights(Array1::from(w));
         }
+        if let Some(w) = &d.w {
+            ds = ds.with_weights(w.clone());
+        }
         let q = if var.starts_with("entropy") { SplitQuality::Entropy } else { SplitQuality::Gini };
         let md = geti_or(inp, "depth", 4) as usize;
         match DecisionTree::params().split_quality(q).max_depth(Some(md)).fit(&ds) {
@@ -659,7 +683,10 @@ mod est_cls {
 
     /// string labels: hashing and ordering of the classes differ from the usize case
     pub fn tree_str(inp: &Value, d: &Data, o: &mut Obs) {
-        let ds = DatasetBase::new(d.x.clone(), str_labels(d));
+        let mut ds = DatasetBase::new(d.x.clone(), str_labels(d));
+        if let Some(w) = &d.w {
+            ds = ds.with_weights(w.clone());
+        }
         let q = if gets_or(inp, "var", "gini") == "entropy" { SplitQuality::Entropy } else { SplitQuality::Gini };
         match DecisionTree::params().split_quality(q).max_depth(Some(geti_or(inp, "depth", 4) as usize)).fit(&ds) {
             Ok(m) => {
@@ -996,6 +1023,20 @@ mod est_pre {
             }
             Err(e) => o.err("model", &e),
         }
+    }
+
+    /// the per-class weight aggregation of linfa itself (`label_frequencies`, used by the trees),
+    /// compared as a class -> weight map
+    pub fn label_freq(_inp: &Value, d: &Data, o: &mut Obs) {
+        let mut ds = DatasetBase::new(d.x.clone(), d.yc.clone());
+        if let Some(w) = &d.w {
+            ds = ds.with_weights(w.clone());
+        }
+        let f: BTreeMap<usize, u32> = ds.label_frequencies().into_iter().map(|(k, v)| (k, v.to_bits())).collect();
+        o.text("frequencies", &format!("{:?}", f));
+        let mask: Vec<bool> = (0..d.x.nrows()).map(|i| i % 2 == 0).collect();
+        let f: BTreeMap<usize, u32> = ds.label_frequencies_with_mask(&mask).into_iter().map(|(k, v)| (k, v.to_bits())).collect();
+        o.text("frequencies_masked", &format!("{:?}", f));
     }
 
     pub fn pearson(_inp: &Value, d: &Data, o: &mut Obs) {
@@ -1708,6 +1749,7 @@ fn registry() -> BTreeMap<&'static str, EstFn> {
     m.insert("countvec", est_pre::countvec);
     m.insert("tfidf", est_pre::tfidf);
     m.insert("pearson", est_pre::pearson);
+    m.insert("label_freq", est_pre::label_freq);
     m.insert("b_countvec", est_builder::countvec);
     m.insert("b_tfidf", est_builder::tfidf);
     m.insert("b_kmeans", est_builder::kmeans);
